@@ -52,28 +52,34 @@ PROP = {'drive': ['Total'] + ['Total' + g for g in _GROUPS],
  'areas': [('total', 3000, 40000)],
  'rule': 'distinct case lines (decoder, bytes); non-trivial = input of at least 4 bytes',
  'partial': [
-     'modelled: yes / proved: yes (checked-index model, no panic on every input, explicit cost, V stream + site inventory): '
-     'kern.Read (repaired), maxp.Read, header.Read, gdef.Read (relative to its sub-readers), cmap.Decode + Table.Get + '
-     'decodeFormat0/4/6/12 + their Lookup/CodeRange, decodeLoca + glyf.Decode + decodeGlyph + removePadding + '
-     'decodeGlyphComposite + SimpleGlyph.Decode + Components, hmtx.Decode, head.Read, os2.Read, post.Read, name.Decode + '
-     'utf16Decode, CFF readIndex, coverage.Read/ReadSet, classdef.Read',
-     'cost clause TRUE ONLY IN A WEAKER FORM (proved as *_cost_partial, negation of the linear clause proved where stated): '
-     'gdef.Read ((|b|/4+3)(C+2), C02_gdef_alloc_fails), name.Decode (records x length up to a cap, C02_name_cost_fails), '
-     'cmap.Decode (steps quadratic in the number of records: 64*steps <= 64+|b|^2; allocation linear); decodeFormat4/12, coverage '
-     'format 2, classdef.Read (since 92dc1a2) and SimpleGlyph.Decode are linear plus the constant 65536',
+     'modelled: yes / proved: yes (checked-index model, no panic on every input, explicit cost, V stream + site inventory), tier A: '
+     'kern.Read, maxp.Read, header.Read, gdef.Read, cmap.Decode + Table.Get + decodeFormat0/4/6/12 + Lookup/CodeRange, decodeLoca + '
+     'glyf.Decode + decodeGlyph + removePadding + decodeGlyphComposite + SimpleGlyph.Decode + Components, hmtx.Decode, head.Read, '
+     'os2.Read, post.Read, name.Decode + utf16Decode, CFF readIndex/readIndexAt, coverage.Read/ReadSet, classdef.Read; tier B: CFF '
+     'decodeDict/decodeFloat, readCharset/readEncoding/readFDSelect (+ the FDSelect closure), readScriptList/readScriptTable/'
+     'readLangSysTable/readFeatureList + the gtab.Read header, readLookupList + readExtensionSubtable + both subtable dispatchers, '
+     'GSUB 1.1/1.2/2.1/3.1/4.1/8.1, readNested + SeqContext1/2/3, ChainedSeqContext1/2/3, GPOS 1.1/1.2/2.1/2.2/3.1, anchor.Read, '
+     'markarray.Read (Props/C02.lean and Props/C02B.lean)',
+     'cost clause TRUE ONLY IN A WEAKER FORM (proved as *_cost_partial; the negation of the linear clause proved where a *_fails / '
+     '*_alias theorem is listed): gdef.Read, name.Decode, cmap.Decode (quadratic steps), readScriptList (cubic), readLookupList '
+     '(6000 x subtable cost), GSUB 2.1/3.1/8.1, SeqContext1/3, ChainedSeqContext3, GPOS 2.1 (offsets may alias one record and every '
+     'visit is charged); caps tested only AFTER the work: GSUB 4.1, SeqContext2, ChainedSeqContext2; linear plus a constant cap: '
+     'decodeFormat4/12, coverage, classdef, SimpleGlyph.Decode, readFeatureList, GPOS 1.x/2.2/3.1, ChainedSeqContext1',
      'modelled: no / proved: no (fuzz-tied only, stream D:total.<decoder> and total.adv families; search, not proof): sfnt.Read '
-     '(table merge), cff.Read above INDEX level (DICT, charset, encoding, FDSelect, charstring interpreter), gtab.Read (script/'
-     'feature/lookup lists and all subtable readers), post.Read bridge to the C14 names model, readIndexAt',
-     'C02_lazy_safe is proved for SimpleGlyph.Decode (every value), Components, Table.Get and the format 0/4/6/12 Lookup/CodeRange; '
-     'the remaining accessors (Font.Widths/GlyphBBoxes/GlyphName/..., re-encoding, GetBest) are only searched by the fuzz stream',
+     '(table merge), cff.Read top level (Top DICT interpretation, readPrivate, charstring interpreter: see C05/C13), GPOS 4.1/5.1/6.1 '
+     'readers; bridges missing: SeqContext1/2 top level, GPOS 2.1, script table/script list/feature list to the C08 models',
+     'C02_lazy_safe is proved for SimpleGlyph.Decode (every value), Components, Table.Get, the format 0/4/6/12 Lookup/CodeRange and the '
+     'FDSelect closure; the remaining accessors (Font.Widths/GlyphBBoxes/GlyphName/..., re-encoding, GetBest, Context.Apply) are only '
+     'searched by the fuzz stream',
      'wall-time and runtime.MemStats bounds are checked per case against generous constants '
      '(alloc <= 4096*len + 16 MiB, time <= 50 us*len + 3 s, 10 s time-out); they calibrate, they do not prove',
-     'open cost findings (replayed on every run from known_findings.jsonl): gdef distinct 10-byte coverage tables per set (rest of #37), '
-     'context-rule aliasing (#27), name record aliasing (new), lookup-list aliasing (new), re-encoding refused by an explicit '
-     'encoder panic (C02-reencode-refused; counted as its own outcome class by the generator, strict=1 on the known line); repaired under this property: kern pair count (#35), glyph-name count (Font.GlyphName panic), '
-     'CFF Private DICT size (#40, patch 01), Type 2 operation budget (#26, patch 02), gdef aliased mark-glyph-set offsets (#37, patch 04), '
-     'Format0.Lookup negative rune (new, patch 05), classdef format 2 backward ranges (#36, patch 03); offered: zero glyph counts in '
-     'the chained-context and ligature readers (patch 06, needs the C08 model change)'],
+     'open findings (replayed on every run from known_findings.jsonl): aliasing cost in gdef (distinct tables), GSUB context (#27), name '
+     'records, lookup list, script list (cubic), GSUB 8.1, GPOS 2.1, chained context 3; re-encoding refused by an explicit encoder panic '
+     '(generator class reencode-refused; strict=1 on the known line); extension-to-extension lookup surviving readLookupList '
+     '(Context.Apply panics "unreachable"). Observed, not C02: the reader key 10*LookupType+format collides/wraps in uint16, so a '
+     'format unknown for its lookup type is decoded by another reader (the C08 dispatcher models answer invalid there). Repaired under '
+     'this property: #35 kern, glyph-name count, #40, #26, #37 (aliased offsets), #36, Format0.Lookup negative rune; offered: '
+     'patches/C02/06 (zero glyph counts)'],
  'modelled_not_verified': [
      'parser.Parser is taken as a plain byte view of an in-memory reader (theorem C17); ReadBytes(n>1024) is the only panic site and every modelled call has a constant argument',
      'sort.Slice in header.Read is re-implemented as List.mergeSort and charged n*(log2 n+1) steps',
